@@ -522,6 +522,35 @@ pub fn bfs(run: &mut crate::engine::Run, prop: &'static str, name: &str, m: &Mac
     stats
 }
 
+/// PAIRSEQ: every ordered pair (first, second) over two event lists, on a fresh
+/// context each; the second step and the probe battery are judged.
+pub fn pairseq(run: &mut crate::engine::Run, prop: &'static str, name: &str, cfg: &Cfg, first: &[Event], second: &[Event], filter: &Filter) {
+    let n1 = first.len() as u64;
+    let n2 = second.len() as u64;
+    let probe_pkts = probes(cfg);
+    run.sweep_chunked(&format!("PAIRSEQ {}: every ordered pair over {} x {} events", name, n1, n2), n1 * n2, |acc, lo, hi| {
+        let owned = Owned::new(cfg);
+        for i in lo..hi {
+            let e1 = &first[(i / n2) as usize];
+            let e2 = &second[(i % n2) as usize];
+            let m = Machine { cfg: cfg.clone(), init: vec![], alphabet: vec![e1.clone(), e2.clone()] };
+            let node = m.eval(&owned, &probe_pkts, &[0, 1]);
+            acc.evals += 1;
+            acc.trans += node.calls;
+            acc.validated += 1;
+            if i % 7 == 0 {
+                acc.state(node.key);
+            }
+            acc.nontrivial(Fnv::default().u64(0x9A1).u64(fp(e1)).u64(fp(e2)).finish());
+            acc.outcome2(event_kind(e2), if node.diffs.is_empty() { "pair.agrees" } else { "pair.differs" });
+            let h = [e1.clone(), e2.clone()];
+            for df in node.diffs.iter().filter(|df| filter(df, &h)) {
+                acc.violation(2, "pair", df.text.clone(), || json!({"prop": prop, "check": "history", "cfg": m.cfg, "init": m.init, "history": h}));
+            }
+        }
+    });
+}
+
 /// Replay of a history case: returns all diffs (unfiltered text) of the last
 /// step and the probes.
 pub fn replay_history(case: &Value) -> Result<(Vec<Diff>, Event, String), String> {
